@@ -132,6 +132,17 @@ C16 == \A o \in rets' : o.fn = "pay" =>
           /\ (o.r = "ok" => o.key = o.hash /\ CompletedPost(o.hash))
           /\ (o.r = "err" => ~LivePost(o.hash) /\ pay'[o.hash].run = 0)
 
+(* Beyond the listed properties (growth of the specification, DESIGN.md section 12):        *)
+(* AUDIT  the per-attempt audit record agrees with ground truth: an attempt is recorded as  *)
+(*        succeeded only when a part of the hash is complete and the state record says so,  *)
+(*        and as failed only when nothing of the hash is pending or complete                *)
+AttChanged(h, a) == a \in DOMAIN att'[h] /\ (a \notin DOMAIN att[h] \/ att[h][a] # att'[h][a])
+Audit == \A h \in Hashes : \A a \in DOMAIN att'[h] :
+           AttChanged(h, a) =>
+             /\ (att'[h][a] = "ok" => Completed(h) /\ ds[h].st = "succeeded")
+             /\ (att'[h][a] = "failed" => ~Live(h))
+             /\ (att'[h][a] = "open" => ds[h].st = "pending" /\ ds[h].a = a)
+
 (* C13  non-trampoline HTLCs: answered `continue` in the arrival step,     *)
 (*      no RPC, nothing else touched                                       *)
 C13 == \A i \in DOMAIN htlc' :
